@@ -43,6 +43,11 @@ pub struct GGraph {
     pub member_order: Vec<usize>,
 }
 
+/// the `repository` every generated local package declares
+pub fn local_repository(name: &str) -> String {
+    format!("https://example.com/local/{name}")
+}
+
 impl GGraph {
     pub fn pkgid(&self, p: &GPkg) -> String {
         match p.source {
@@ -91,7 +96,7 @@ impl GGraph {
                         "doctest": true, "test": true }],
                     "features": {}, "manifest_path": "/FAKE/Cargo.toml", "metadata": null,
                     "publish": null, "authors": [], "categories": [], "keywords": [],
-                    "readme": "README.md", "repository": null, "homepage": null,
+                    "readme": "README.md", "repository": local_repository(&p.name), "homepage": null,
                     "documentation": null, "edition": "2015", "links": null,
                     "default_run": null, "rust_version": null
                 })
